@@ -5,7 +5,7 @@ import ast
 
 from .. import astutil as A
 from ..cfg import cfg_of, within
-from ..dataflow import derives, local_defs, reaching
+from ..dataflow import derives, local_defs, reaching, source_list
 
 EXPL = (
     'Placement and shape of the step phase, on all paths: _send_updates '
@@ -241,7 +241,9 @@ def r05_3(ck):
                    'updates are applied in a loop over the collected list',
                    None, appl[0])
         if al is not None and isinstance(al.iter, ast.Name):
-            lst = al.iter.id
+            # the applied list may be derived from the collected one by an
+            # unfiltered comprehension (fetch first, apply afterwards)
+            lst, _comps = source_list(f.node, al.iter.id)
             ds = [d for d in local_defs(f.node).get(lst, [])
                   if d.kind != 'mutate']
             ok = bool(ds) and all(within(d.stmt, outer) and isinstance(
